@@ -18,10 +18,20 @@ def run_case(case, opts):
         ev.append({"c": "ParseDomain", "h": "d", "tree": case["tree"], "out": {"exc": pylib.exc_name(e)}})
         return hist
     act = dom.actions["act"]
-    d = case["digits"]
+    # the same conditions printed twice by one process, first with the case's (coarser) setting and then with six
+    # decimals: a result remembered from the first call shows in the second
+    plan = [(case["digits"], case["exact"])]
+    if case["digits"] < 5 and case["id"] % 2:
+        plan.append((6, case["exact"]))
+    for d, exact in plan:
+        ev.append(simplify_event(dom, act, case["how"], d, exact))
+    return hist
+
+
+def simplify_event(dom, act, how, d, exact):
     out = {}
     try:
-        if case["how"] == "print":
+        if how == "print":
             printed = act.preconditions.print(should_simplify=True, decimal_digits=d)
             tree = sexp_reader.read(printed)
             conds = tree["c"][1:]
@@ -39,5 +49,4 @@ def run_case(case, opts):
         out = {"trees": conds, "reparse_ok": ok, "texts": texts}
     except Exception as e:  # noqa: BLE001
         out = {"exc": pylib.exc_name(e)}
-    ev.append({"c": "Simplify", "d": "d", "act": "act", "digits": d, "how": case["how"], "exact": case["exact"], "out": out})
-    return hist
+    return {"c": "Simplify", "d": "d", "act": "act", "digits": d, "how": how, "exact": exact, "out": out}
